@@ -19,6 +19,7 @@ package mysql
 import (
 	"bytes"
 	"encoding/binary"
+	"errors"
 	"fmt"
 	"io"
 	"net"
@@ -111,6 +112,10 @@ func (packet *Packet) GetData() []byte {
 	return packet.data
 }
 
+// ErrParamTypesNotSent is returned for a statement execution that carries parameter values without their types
+// (new_params_bind_flag is 0: the client relies on the types it sent with an earlier execution)
+var ErrParamTypesNotSent = errors.New("parameter types were not sent with the statement execution")
+
 // GetBindParameters returns packet Bind parameters
 func (packet *Packet) GetBindParameters(paramNum int) ([]base.BoundValue, error) {
 	// https://dev.mysql.com/doc/dev/mysql-server/latest/page_protocol_com_stmt_execute.html
@@ -127,6 +132,10 @@ func (packet *Packet) GetBindParameters(paramNum int) ([]base.BoundValue, error)
 		// 7 + num-params offset from docs
 		// For COM_STMT_EXECUTE this offset is 0
 		nullBitMapLength := (paramNum + 7) / 8
+		// NULL bitmap and new_params_bind_flag
+		if len(packet.data) < pos+nullBitMapLength+1 {
+			return nil, base_mysql.ErrMalformPacket
+		}
 		if nullBitMapLength > 0 {
 			nullBitmap = packet.data[pos : pos+nullBitMapLength]
 		}
@@ -138,12 +147,19 @@ func (packet *Packet) GetBindParameters(paramNum int) ([]base.BoundValue, error)
 
 	values := make([]base.BoundValue, paramNum)
 	if !newParamsBindFlag {
+		if paramNum > 0 {
+			// the values can't be read (and protected) without their types
+			return nil, ErrParamTypesNotSent
+		}
 		return values, nil
 	}
 	pos += +1
 
 	//here we need to gather all provided param types
 	paramTypes := make([]byte, paramNum)
+	if len(packet.data) < pos+2*paramNum {
+		return nil, base_mysql.ErrMalformPacket
+	}
 	for i := 0; i < paramNum; i++ {
 		paramTypes[i] = packet.data[pos]
 		pos += 2
